@@ -34,6 +34,66 @@ def build():
                               extra_flags=['-DC17_API_H_HASH=0x' + hh[:8]])
 
 
+def build_ro():
+    """the library as a shared object of its own (its statics get pages of their own) + harness/c18_rostatics.c"""
+    d, objs = vlib.build_repo('plain', ('mir', 'mir-gen', 'c2mir'), defs=['-fPIC'])
+    so = os.path.join(d, 'libmirv.so')
+    with vlib.Lock('so-' + os.path.basename(os.path.dirname(d))):
+        if not os.path.exists(so):
+            rc, out, err = vlib.sh(['gcc', '-shared', '-o', so + '.tmp'] + objs + ['-Wl,-z,relro,-z,now', '-lm', '-ldl', '-lpthread'],
+                                   timeout=600)
+            if rc != 0:
+                raise vlib.BuildError('linking libmirv.so failed: ' + (out + err)[-1500:])
+            os.rename(so + '.tmp', so)
+    hh = vlib.file_hash([os.path.join(vlib.VERIF, 'harness', 'c17_api.h')])
+    exe = vlib.build_harness('c18_rostatics', ['c18_rostatics.c'], variant='plain', units=(),
+                             extra_flags=['-DC17_API_H_HASH=0x' + hh[:8]],
+                             libs=(so, '-Wl,-rpath,' + d, '-lm', '-ldl', '-lpthread'))
+    return exe, so
+
+
+def so_symbols(so):
+    """[(offset, size, name)] of the data objects of the shared object, sorted"""
+    rc, out, err = vlib.sh(['nm', '-n', '-S', '--defined-only', so], check=True)
+    syms = []
+    for l in out.split('\n'):
+        p = l.split()
+        if len(p) == 4 and p[2] in 'bBdDrRsS':
+            syms.append((int(p[0], 16), int(p[1], 16), p[3]))
+    return syms
+
+
+def ro_statics_pass(chk, scripts):
+    """every script in one thread with the library's writable data pages made read-only: any store to a library static
+    (also through a pointer the translator cannot follow) is reported.  -> {object name: (script, detail)}"""
+    exe, so = build_ro()
+    syms = so_symbols(so)
+    found = {}
+    nrun = 0
+    for sc in scripts:
+        rc, out, err = vlib.sh([exe], input=('\n'.join(sc) + '\nend\n').encode(), timeout=300)
+        nrun += 1
+        chk.dist('ro_statics_runs', 'ok' if rc == 0 else 'rc%d' % rc)
+        if 'X PROTECTED' not in out:
+            raise vlib.BuildError('c18_rostatics did not protect the library data: %s' % (out + err)[-300:])
+        if rc not in (0, 65):
+            raise vlib.BuildError('c18_rostatics failed (rc %d): %s' % (rc, (out + err)[-400:]))
+        for l in out.split('\n'):
+            m = re.match(r'^X STATIC-WRITE ([0-9a-f]+) pc ([0-9a-f]+)', l)
+            if not m:
+                continue
+            off, pc = int(m.group(1), 16), int(m.group(2), 16)
+            name = next((n for a, sz, n in syms if a <= off < a + max(sz, 1)), None) or 'offset-0x%x' % off
+            fn = '?'
+            if pc:
+                rc2, o2, _ = vlib.sh(['addr2line', '-f', '-e', so, hex(pc)])
+                fn = o2.split('\n')[0] if o2 else '?'
+            found.setdefault(name, (sc, dict(object=name, so_offset=hex(off), written_by=fn,
+                                             how='library linked as libmirv.so, its .data/.bss made read-only, script run by harness/c18_rostatics.c')))
+    chk.log('read-only statics pass: %d scripts, %d written objects %s' % (nrun, len(found), sorted(found)))
+    return found
+
+
 def run_set(exe, threads, reps, mode, alloc='default', timeout=600):
     lines = ['threads %d reps %d mode %s alloc %s' % (len(threads), reps, mode, alloc)]
     for tid, sc in enumerate(threads):
@@ -180,7 +240,14 @@ def run(chk):
     if G.EXCLUDE_TAGS:
         chk.notes.append('tree without fixes/C18-3.patch: C units %s (alloca / label addresses -> shared VOID_TYPE) left out of '
                          'the thread sets' % sorted(G.EXCLUDE_TAGS))
-    sets = [(name, th, reps) for name, th, reps in focused_sets(rng)]
+    sets = []
+    corpus = os.path.join(vlib.VERIF, 'corpus', 'c18_sets.jsonl')
+    if os.path.exists(corpus):
+        for l in open(corpus):
+            if l.strip():
+                j = json.loads(l)
+                sets.append(('corpus:' + j['set'], j['threads'], j['reps']))
+    sets += [(name, th, reps) for name, th, reps in focused_sets(rng)]
     nrand = 14 if quick else 1000
     for _ in range(nrand):
         nt = rng.choice([2, 3, 4, 6, 8])
@@ -238,6 +305,21 @@ def run(chk):
             found.setdefault('interference:results', (lines, dict(set=name, threads=bad, parallel={t: a.get(t) for t in bad},
                                                                   sequential={t: b.get(t) for t in bad}),
                                                       'a thread obtained different results in the parallel run than running alone'))
+    # --- the library's static data made read-only (validates the translator's "nothing is written" fact dynamically,
+    #     including stores through pointers): fixed histories covering every source kind and interface + random ones
+    ro_rng = chk.rng('ro-statics')
+    ro_scripts = [[l[2:] for l in sc] for sc, info in G.fixed_scenarios() if info['ctxs'] == 1]
+    ro_scripts += [G.Scen(ro_rng, [0], threads=True).lines for _ in range(20 if quick else 400)]
+    for name, th, reps in sets:
+        if name.startswith('corpus:'):
+            ro_scripts += [list(t) for t in th[:1]]
+    for obj, (sc, detail) in sorted(ro_statics_pass(chk, ro_scripts).items()):
+        chk.count(('ro', sc), nontrivial=True)
+        detail['statics_entry'] = [o for o in objs if o['name'] == obj]
+        found.setdefault('static-write:' + obj, (['threads 1 reps 1 mode seq alloc default'] + ['0 ' + l for l in sc] + ['end'], detail,
+                                                 'a library function stored to the process-wide static object %s (in %s)' % (
+                                                     obj, detail['written_by'])))
+    chk.cov['ro_statics_scripts'] = len(ro_scripts)
     chk.cov['rule'] = ('each case is a set of per-thread API scripts run twice by harness/c18_threads.c under ThreadSanitizer: all '
                       'threads in parallel (each with its own context, scripts repeated so that creation/destruction overlap) '
                       'and one after another; TSan reports and per-thread result differences are failures; non-trivial = >= 2 '
@@ -264,6 +346,12 @@ def run(chk):
 
 def replay(chk, path):
     j = json.load(open(path))
+    if j.get('signature', '').startswith('static-write:'):
+        sc = [l[2:] for l in j['replay']['script'] if l[:2] == '0 ']
+        found = ro_statics_pass(chk, [sc])
+        for k, (s_, d) in found.items():
+            print('static object written:', k, 'by', d['written_by'])
+        return 1 if found else 0
     exe = build()
     lines = j['replay']['script']
     rc, out, err = vlib.sh([exe], input=('\n'.join(lines) + '\n').encode(), timeout=600, env=TSAN_ENV)
